@@ -763,7 +763,21 @@ impl Future for ServerWorker {
                             .call((guard, msg.io))
                             .into_inner();
                     }
-                    None => return Poll::Ready(()),
+                    None => {
+                        // The accept thread has dropped its end: no more connections will arrive.
+                        // The server messages the workers before it stops the accept thread, so the
+                        // stop message is already queued (or the worker was polled while it was being
+                        // sent): let the stop handler above decide how to shut down and keep the
+                        // connections in progress alive until then. Only if the server is gone as
+                        // well is there nothing left to wait for.
+                        if !this.stop_rx.is_empty() {
+                            return self.poll(cx);
+                        }
+                        if this.stop_rx.is_closed() {
+                            return Poll::Ready(());
+                        }
+                        return Poll::Pending;
+                    }
                 };
             },
         }
